@@ -1,15 +1,15 @@
 ----------------------------- MODULE MC_DsvFormat -----------------------------
 (* C22 model stage: RoundTrip for every array of 1..MaxArr strings of length  *)
-(* <= MaxStr over the alphabet {DELIM, QUOTE, CR, LF, space, 'a'}.  The array is   *)
+(* <= MaxStr over Alphabet (cfg: {DELIM, QUOTE, CR, LF, space, 'a'}).  The array is *)
 (* grown one character / one string per step; every state stands for the      *)
 (* array  done \o <<cur>>.                                                     *)
 EXTENDS DsvFormat, TLC
 
-CONSTANTS DELIM, MaxArr, MaxStr
+CONSTANTS DELIM, MaxArr, MaxStr, Alphabet
 
 VARIABLES done, cur
 
-Alphabet == {DELIM, QUOTE, 13, LF, 32, 97}
+ASSUME DELIM \in Alphabet /\ QUOTE \in Alphabet /\ LF \in Alphabet
 
 Init == done = <<>> /\ cur = <<>>
 
